@@ -4,6 +4,15 @@ import json, subprocess
 HOOK_COMMITS = subprocess.run(['git','-C','/repo','log','--format=%H','--grep=^verif hooks'],capture_output=True,text=True).stdout.split()
 CLAIMED = {
  # id: (design_ref, level text, level_note, technique)
+ "C01": ("§7 C01", "Bounded exhaustive exploration of the real Writer->Reader path: every case of a product alphabet (boundary scalars x annotation sets x contexts, all ordered pairs of token classes, all small container shapes, boundary payload lengths, symbol-count boundaries) in each of the three writer modes, with <=d deviations in Writer entry point, compared in the Ion data model. No case inside the alphabet breaks the round trip except the listed known finding.",
+         "Trusts refmodel equality and the drive adapters; values outside the alphabet, deeper nesting and longer sequences are not covered.",
+         "stateless choice-tree enumeration (deviation-bounded) of value sequences on the real Writer and Reader vs an independent data-model oracle"),
+ "C03": ("§7 C03", "Bounded exhaustive exploration of the real binary Reader over every encoding an independent spec-derived encoder can produce with <=d deviations from canonical form, for every document of the corpus; each full traversal compared value-by-value with the encoded model.",
+         "Trusts refbin (encoder) and refmodel; the encoder's own round trip through the independent strict decoder is re-checked by `run.sh selfcheck`. Encodings with more than d simultaneous deviations are not covered.",
+         "deviation-bounded enumeration of representation choices (stateless choice-tree explorer) replayed on the real Reader"),
+ "C04": ("§7 C04", "Every output the real Writers produce for the C01 alphabet is judged only by independent decoders (strict binary validator / text grammar parser + symbol context machine), and every integer codec is enumerated over 0..2^16 and all 2^k±2 with length-function/bytes agreement.",
+         "Trusts refbin, reftext and refsym; ion-go's Reader is never consulted.",
+         "exhaustive enumeration of writer inputs and codec arguments on the implementation, outputs validated by an independent reference decoder"),
  "C14": ("§7 C14", "Bounded exhaustive exploration of the real Decimal code: every decimal of a boundary grid through every unary operation and argument, every ordered pair through Add/Sub/Mul/Cmp/Equal, every literal spelling of a product alphabet through ParseDecimal, each compared with exact integer arithmetic. Coverage statement, not a sample: no case inside the grid violates the property.",
          "Trusts math/big and the 30-line reference literal grammar; values outside the grid (other coefficients, exponent gaps above the bound) are not covered.",
          "explicit enumeration of the operand/operation choice tree on the implementation (stateless explorer) vs exact-arithmetic reference"),
